@@ -48,7 +48,9 @@ StageWord(n) == CHOOSE w \in StageWords : StageNum[w] = n
 
 Reserved == {"input", "data", "bin", "conf"}      \* FlowIR.SpecialFolders
 ReservedSeqs == {<<w>> : w \in Reserved}
-VarWords == {"%(v)s"}                             \* a word that is a variable reference %(name)s
+(* A variable reference %(name)s is a token of its own: it may stand alone or be glued to literal text          *)
+(* ("results-" "%(v)s"), so "the segment contains a variable" is visible to the model.                           *)
+VarWords == {"%(v)s", "%(w)s"}
 
 (* ---------------------------------------------------------------------- *)
 (* token-sequence helpers                                                   *)
@@ -149,7 +151,10 @@ DirectByStatement(s, ctx) ==
   LET b == Body(s) IN
   \/ b[1] = "/"
   \/ FirstSegment(b) \in Folders(ctx)
-  \/ (Len(FirstSegment(b)) = 1 /\ FirstSegment(b)[1] \in VarWords)
+  \/ IsVar(FirstSegment(b))      \* "a variable": the implementation documents (ParseDataReferenceFull,
+                                  \* expand_potential_component_reference: "references whose producer is a variable
+                                  \* reference") and implements it as: the segment CONTAINS %(name)s anywhere --
+                                  \* such a producer is only known once the variable is resolved
 (* "... and every other reference whose producer is a known component is."  The producer of a         *)
 (* relative spelling is looked up in the stage of the consumer (n).                                    *)
 Producer(s, n) == LET p == ParseAbs(s) IN <<IF p.stage = NoStage THEN n ELSE p.stage, p.prod>>
@@ -172,9 +177,13 @@ Expand(s, n, ctx) ==
 ReservedBodies == ReservedSeqs
                   \cup {<<w, "/", "f", ".", "txt">> : w \in Reserved}
                   \cup {<<"data", "/", "d", "/", "f", ".", "txt">>, <<"data", "/", "stage1", ".", "x">>,
-                        <<"input", "/", "stage1x", ".", "foo">>}
+                        <<"input", "/", "stage1x", ".", "foo">>, <<"data", "/", "in-", "%(v)s", ".", "txt">>}
 AbsBodies == {<<"/", "abs", "/", "p">>, <<"/", "abs", "/", "stage1", ".", "p">>, <<"/", "data">>}
-VarBodies == {<<"%(v)s">>}
+(* producers with a variable at the start, in the middle, at the end of the first segment, glued to text,    *)
+(* dashes, digits, next to a dot, two variables, and behind a look-alike of a stage prefix                     *)
+VarBodies == {<<"%(v)s">>, <<"%(v)s", "-cache">>, <<"results-", "%(v)s">>, <<"pre_", "%(v)s", "_post">>,
+              <<"run7", "%(v)s">>, <<"v2", ".", "%(v)s">>, <<"%(v)s", ".", "d">>,
+              <<"%(v)s", "%(w)s">>, <<"a-", "%(v)s", "-", "%(w)s">>, <<"stage1", "%(v)s", ".", "x">>}
 Prods == Names \cup ReservedBodies \cup AbsBodies \cup VarBodies
 
 (* a name is words joined by "."; if it has several segments the first one is not a stage word       *)
@@ -339,13 +348,16 @@ NamesFull == {
    <<"data", ".", "x">>, <<"datax">>, <<"name0">>,              \* look-alikes of folders
    <<"c">>, <<"name">>, <<"pkg">>, <<"n", ".", "m">>, <<"lib">> }   \* called like folders of some contexts
 FilesFull == { <<>>, <<"f", ".", "txt">>, <<"*", ".", "txt">>, <<"d", "/", "f", ".", "txt">>, <<"d", "/", "*">>,
-               <<"out">>, <<"data", "/", "x">>, <<"stage1", ".", "x">> }
-FilesSmall == { <<>>, <<"f", ".", "txt">>, <<"d", "/", "f", ".", "txt">>, <<"d", "/", "*">>, <<"stage1", ".", "x">> }
+               <<"out">>, <<"data", "/", "x">>, <<"stage1", ".", "x">>,
+               <<"%(v)s", ".", "txt">>, <<"d", "/", "out-", "%(v)s", ".", "txt">> }     \* a variable in the file path
+FilesSmall == { <<>>, <<"f", ".", "txt">>, <<"d", "/", "f", ".", "txt">>, <<"d", "/", "*">>, <<"stage1", ".", "x">>,
+                <<"d", "/", "out-", "%(v)s", ".", "txt">> }
 MethodsAll == {"copy", "link", "ref", "copyout", "extract", "output", "loopref", "loopoutput"}
 MethodsSmall == {"ref", "copy", "output"}
 MethodsTwo == {"ref", "copyout"}
 MethodsOne == {"ref"}
 FilesTwo == { <<>>, <<"d", "/", "f", ".", "txt">> }
+FilesThree == { <<>>, <<"d", "/", "f", ".", "txt">>, <<"d", "/", "out-", "%(v)s", ".", "txt">> }
 
 (* manifest keys of depth 1, 2 and 3; a deeper key whose top-level folder is / is not declared by a shallower key;  *)
 (* keys with a trailing separator; keys whose top-level folder looks like a reserved folder or like a component     *)
